@@ -385,18 +385,18 @@ func (w *world) newRec(from, to int, t lib.Topic, g, seq, size int, path string)
 
 // register makes the exact bytes that are expected in the remote inbox known to the oracle (before sending).
 func (w *world) register(r *sentRec, wire []byte) {
-	r.Hash = sha(wire)
-	r.Size = len(wire)
+	h := sha(wire)
 	w.mu.Lock()
-	w.byHash[r.Hash] = append(w.byHash[r.Hash], r)
+	r.Hash, r.Size = h, len(wire)
+	w.byHash[h] = append(w.byHash[h], r)
 	w.mu.Unlock()
 }
 
 // registerHash is register for a message whose bytes the harness did not keep (streamed reference).
 func (w *world) registerHash(r *sentRec, h [32]byte, size int) {
-	r.Hash, r.Size = h, size
 	w.mu.Lock()
-	w.byHash[r.Hash] = append(w.byHash[r.Hash], r)
+	r.Hash, r.Size = h, size
+	w.byHash[h] = append(w.byHash[h], r)
 	w.mu.Unlock()
 }
 
@@ -666,39 +666,50 @@ func (e *endpoint) rawMessage(w *world, r *sentRec, payload []byte, chunk int) e
 // waits until the markers have been popped remotely: per (connection, topic) the code is FIFO, so everything
 // queued earlier has by then been delivered or dropped. Returns false if the watchdog fired.
 func (w *world) fence(e *endpoint, topics []lib.Topic) bool {
-	var chans []chan struct{}
-	for _, t := range topics {
-		r := w.newRec(e.n.idx, e.peer.idx, t, -1, 0, 24, "direct")
-		r.Fence = true
-		r.fenceCh = make(chan struct{})
-		ch := r.fenceCh
-		payload := makePayload(24, r.ID, w.mask)
-		e.send(w, r, payload)
-		if r.ok.Load() != 1 {
-			// refused: the stream was closed; the code reports the reason through OnPeerError
-			return waitFor(5*time.Second, func() bool { return w.connDead(e) })
+	pending := append([]lib.Topic(nil), topics...)
+	// a marker can itself be dropped by a full inbox (the code logs it; the loss budget covers it): re-send
+	for attempt := 0; attempt < 3 && len(pending) > 0; attempt++ {
+		chans := map[lib.Topic]chan struct{}{}
+		for _, t := range pending {
+			r := w.newRec(e.n.idx, e.peer.idx, t, -1, attempt, 24, "direct")
+			r.Fence = true
+			ch := make(chan struct{})
+			w.mu.Lock()
+			r.fenceCh = ch
+			w.mu.Unlock()
+			e.send(w, r, makePayload(24, r.ID, w.mask))
+			if r.ok.Load() != 1 {
+				// refused: the stream was closed; the code reports the reason through OnPeerError
+				return waitFor(5*time.Second, func() bool { return w.connDead(e) })
+			}
+			chans[t] = ch
 		}
-		chans = append(chans, ch)
-	}
-	to := time.After(watchdog)
-	tick := time.NewTicker(20 * time.Millisecond)
-	defer tick.Stop()
-	for _, ch := range chans {
-	wait:
-		for {
-			select {
-			case <-ch:
-				break wait
-			case <-tick.C:
-				if w.connDead(e) {
-					return true
+		to := time.After(watchdog / 3)
+		tick := time.NewTicker(20 * time.Millisecond)
+		var still []lib.Topic
+		for _, t := range pending {
+			ch := chans[t]
+		wait:
+			for {
+				select {
+				case <-ch:
+					break wait
+				case <-tick.C:
+					if w.connDead(e) {
+						tick.Stop()
+						return true
+					}
+				case <-to:
+					still = append(still, t)
+					to = time.After(0) // the remaining topics get no additional wait in this round
+					break wait
 				}
-			case <-to:
-				return false
 			}
 		}
+		tick.Stop()
+		pending = still
 	}
-	return true
+	return len(pending) == 0
 }
 
 // connDead reports whether the code itself dropped the connection of this endpoint (either side logged a
